@@ -1,5 +1,6 @@
 /-
-Line-protocol driver for MpycV.Model.Tools (C32).  Requests (one per line):
+Line-protocol driver for the Tools area: MpycV.Model.Tools (C32), MpycV.Model.Sort (C29),
+MpycV.Model.Bits (C30).  C32 requests (one per line):
   reduce  <n> <init>            init = "-" (no initial value) or a leaf number; leaves 0..n-1
   acc     <n> <init> <method>   method = BK | SK        (in-place layer accBK / accSkl)
   accs    <n> <init> <method>   slice layer bk / skl
@@ -8,6 +9,7 @@ Elements live in the free magma `Tree`; answers are the exact application trees.
 -/
 import MpycV.Model.Tools
 import MpycV.Model.Sort
+import MpycV.Model.Bits
 import MpycV.Model.Util
 open MpycV MpycV.Util MpycV.Tools
 
@@ -74,8 +76,85 @@ def stepSort (op k : String) (rest : List String) : String :=
 def showNet (net : Sort.Net) : String :=
   if net.isEmpty then "-" else " ".intercalate (net.map fun c => toString c.1 ++ ":" ++ toString c.2)
 
+/-! C30: bit-level building blocks; named families for the `f` / `cs_f` arguments of `find` -/
+
+def fFam (name : String) (i : Int) : List Int :=
+  if name == "pow2" then [2 ^ i.toNat] else if name == "nmi" then [10 - i]
+  else if name == "pair" then [i, 2 ^ i.toNat] else [i]
+
+def csFam (name : String) (b i : Int) : List Int :=
+  if name == "pow2" then [(b + 1) * 2 ^ i.toNat] else if name == "nmi" then [10 - i - b]
+  else if name == "pair" then [i + b, (b + 1) * 2 ^ i.toNat] else [i + b]
+
+def validFam (n : String) : Bool := n == "id" || n == "pow2" || n == "nmi" || n == "pair"
+
+def parseFSpec? (s : String) : Option Bits.FSpec :=
+  if s == "default" then some .default else
+  match s.splitOn ":" with
+  | ["f", n] => if validFam n then some (.givenF (fFam n)) else none
+  | ["cs", n] => if validFam n then some (.givenCs (csFam n)) else none
+  | ["fcs", n] => if validFam n then some (.givenCs (csFam n)) else none   -- f and cs_f both given
+  | _ => none
+
+def parseMode? (s : String) : Option Bits.AMode :=
+  if s == "pub" then some .pubBit else if s == "sec" then some .secBit
+  else if s == "gen" then some .general else none
+
+def parseOptInt? (s : String) : Option (Option Int) :=
+  if s == "None" then some none else (parseInt? s).map some
+
+def stepBits (ts : List String) : String :=
+  match ts with
+  | ["addbits", x, y] =>
+    match parseIntList? x, parseIntList? y with
+    | some x, some y => if x.length == y.length then showIntList (Bits.addBits x y) else "bad-op"
+    | _, _ => "bad-op"
+  | ["frombits", x] =>
+    match parseIntList? x with
+    | some x => toString (Bits.fromBits x)
+    | none => "bad-op"
+  | ["tobits", L, f, integral, a, l, rbits, rdivl] =>
+    match parseNat? L, parseNat? f, parseNat? integral, parseInt? a, parseNat? l, parseIntList? rbits,
+        parseInt? rdivl with
+    | some L, some f, some ig, some a, some l, some rbits, some rdivl =>
+      match Bits.toBits L f (ig != 0) a l rbits rdivl with
+      | some r => showIntList r
+      | none => "AssertionError"
+    | _, _, _, _, _, _, _ => "bad-op"
+  | ["find", mode, a, e, fk, x] =>
+    match parseMode? mode, parseInt? a, parseOptInt? e, parseFSpec? fk, parseIntList? x with
+    | some mode, some a, some e, some fs, some x =>
+      match Bits.find mode a x e fs with
+      | (some nf, y) => toString nf ++ " " ++ showIntList y
+      | (none, y) => showIntList y
+    | _, _, _, _, _ => "bad-op"
+  | ["unitvec", a, n] =>
+    match parseInt? a, parseNat? n with
+    | some a, some n =>
+      if n == 0 then "bad-op" else
+      showIntList (Bits.unitVector (Bits.bitsOf a (Bits.bitLength (n - 1))) n)
+    | _, _ => "bad-op"
+  | ["tz", L, a, l, rbits, rdivl] =>
+    match parseNat? L, parseInt? a, parseNat? l, parseIntList? rbits, parseInt? rdivl with
+    | some L, some a, some l, some rbits, some rdivl => showIntList (Bits.trailingZeros L a l rbits rdivl)
+    | _, _, _, _, _ => "bad-op"
+  | ["gcp2", L, a, b, l, ra, rda, rb, rdb] =>
+    match parseNat? L, parseInt? a, parseInt? b, parseNat? l, parseIntList? ra, parseInt? rda,
+        parseIntList? rb, parseInt? rdb with
+    | some L, some a, some b, some l, some ra, some rda, some rb, some rdb =>
+      toString (Bits.gcp2 L a b l ra rda rb rdb)
+    | _, _, _, _, _, _, _, _ => "bad-op"
+  | _ => "bad-op"
+
 def step (line : String) : String :=
   match tokens line with
+  | "addbits" :: _ => stepBits (tokens line)
+  | "frombits" :: _ => stepBits (tokens line)
+  | "tobits" :: _ => stepBits (tokens line)
+  | "find" :: _ => stepBits (tokens line)
+  | "unitvec" :: _ => stepBits (tokens line)
+  | "tz" :: _ => stepBits (tokens line)
+  | "gcp2" :: _ => stepBits (tokens line)
   | ["net", n] => match parseNat? n with | some n => showNet (Sort.sortNet n) | none => "bad-op"
   | "sort" :: k :: rest => stepSort "sort" k rest
   | "npsort" :: k :: rest => stepSort "npsort" k rest
